@@ -8,7 +8,7 @@ for c in m.CONTRACTS:
     for case in c.cases:
         r = runner.run_case(c, case)
         bad = {k:v for k,v in r['obligations'].items() if v['failed'] or v['undecided']}
-        print(r['label'], 'paths', r['paths'], 'obl', len(r['obligations']), '%.2fs'%r['wall_s'], 'ERR' if r['errors'] else '', 'BAD' if bad else '')
+        print(r['label'], 'paths', r.get('paths'), 'obl', len(r['obligations']), '%.2fs'%r['wall_s'], 'ERR' if r['errors'] else '', 'BAD' if bad else '')
         for e in r['errors']: print('   ', e['kind'], e['msg'][:1500])
         for k,v in bad.items():
             print('   ', k, {x:v[x] for x in ('failed','undecided')}, [ (f['model'], f['detail'], f['replay'].get('status'), f['replay'].get('why'), f['replay'].get('tb')) for f in v['failures']][:1], v['undecided_detail'][:1])
